@@ -113,25 +113,88 @@ Qed.
 
 (** * Time and claims *)
 
+Ltac Zify.zify_post_hook ::= Z.div_mod_to_equations.
+
+Lemma ext_of_unix_in_range s : unix_in_range s -> ext_of_unix s = s + unix_to_internal.
+Proof. unfold unix_in_range, ext_of_unix, wrap64, two63, unix_to_internal. intros H. lia. Qed.
+
+Lemma add_sec_sat_small e d :
+  - 4611686018427387904 - unix_to_internal <= e <= 4611686018427387904 + unix_to_internal ->
+  - 1000000 <= d <= 1000000 -> d <> 0 -> add_sec_sat e d = e + d.
+Proof.
+  unfold add_sec_sat, wrap64, two63, unix_to_internal. intros H D N.
+  assert ((e + d + 9223372036854775808) mod (2 * 9223372036854775808) - 9223372036854775808 = e + d) as -> by lia.
+  destruct (Z.ltb_spec e (e + d)); destruct (Z.ltb_spec 0 d); cbn [Bool.eqb]; try reflexivity; lia.
+Qed.
+
+(** Comparing whole seconds [a] (internal) with the verification instant. *)
+Lemma before_now a now :
+  time_before a 0 (now_ext now) (now_nsec now) = true <-> (a - unix_to_internal) * sec_ns < now.
+Proof.
+  unfold time_before, now_ext, now_nsec, sec_ns, unix_to_internal.
+  rewrite orb_true_iff, andb_true_iff, !Z.ltb_lt, Z.eqb_eq. lia.
+Qed.
+
+Lemma now_before a now :
+  time_before (now_ext now) (now_nsec now) a 0 = true <-> now < (a - unix_to_internal) * sec_ns.
+Proof.
+  unfold time_before, now_ext, now_nsec, sec_ns, unix_to_internal.
+  rewrite orb_true_iff, andb_true_iff, !Z.ltb_lt, Z.eqb_eq. lia.
+Qed.
+
+Lemma bool_iff_false (b : bool) (P : Prop) : (b = true <-> P) -> (b = false <-> ~ P).
+Proof.
+  intros H. destruct b; split.
+  - discriminate.
+  - intros N. exfalso. apply N. now apply H.
+  - intros _ Q. apply H in Q. discriminate.
+  - reflexivity.
+Qed.
+
+(** For claim times clear of the int64 wrap, [CheckTime] is the linear condition. *)
 Theorem check_time_iff c now :
+  unix_in_range (c_iat c) -> unix_in_range (c_exp c) ->
   check_time c now = None <-> c_iat c * sec_ns - grace_ns < now <= c_exp c * sec_ns.
 Proof.
-  unfold check_time.
-  destruct (Z.ltb_spec (c_iat c * sec_ns - grace_ns) now); cbn [negb];
-    [|split; [discriminate|lia]].
-  destruct (Z.ltb_spec (c_exp c * sec_ns) now); split; try discriminate; try lia; reflexivity.
+  intros Ri Re. unfold check_time.
+  rewrite (ext_of_unix_in_range _ Ri), (ext_of_unix_in_range _ Re).
+  rewrite add_sec_sat_small;
+    [|unfold unix_in_range, unix_to_internal in *; lia|unfold grace_sec; lia|unfold grace_sec; lia].
+  destruct (time_before (c_iat c + unix_to_internal + - grace_sec) 0 _ _) eqn:A; cbn [negb].
+  - apply before_now in A.
+    destruct (time_before (c_exp c + unix_to_internal) 0 _ _) eqn:B.
+    + apply before_now in B. unfold grace_sec, grace_ns, sec_ns in *. split; [discriminate|lia].
+    + apply (bool_iff_false _ _ (before_now _ _)) in B.
+      unfold grace_sec, grace_ns, sec_ns in *. split; [lia|reflexivity].
+  - apply (bool_iff_false _ _ (before_now _ _)) in A.
+    unfold grace_sec, grace_ns, sec_ns in *. split; [discriminate|lia].
 Qed.
 
-Lemma check_time_future c now : now <= c_iat c * sec_ns - grace_ns -> check_time c now = Some EFuture.
-Proof. intros H. unfold check_time. destruct (Z.ltb_spec (c_iat c * sec_ns - grace_ns) now); [lia|reflexivity]. Qed.
-
-Lemma check_time_expired c now :
-  c_iat c * sec_ns - grace_ns < now -> c_exp c * sec_ns < now -> check_time c now = Some EExpired.
+Lemma check_time_future c now :
+  unix_in_range (c_iat c) -> unix_in_range (c_exp c) ->
+  now <= c_iat c * sec_ns - grace_ns -> check_time c now = Some EFuture.
 Proof.
-  intros A B. unfold check_time.
-  destruct (Z.ltb_spec (c_iat c * sec_ns - grace_ns) now); [|lia]. cbn [negb].
-  destruct (Z.ltb_spec (c_exp c * sec_ns) now); [reflexivity|lia].
+  intros Ri Re H. destruct (check_time c now) as [e|] eqn:E.
+  - unfold check_time in E.
+    destruct (negb _) eqn:A in E; [congruence|]. exfalso.
+    rewrite (ext_of_unix_in_range _ Ri) in A.
+    rewrite add_sec_sat_small in A;
+      [|unfold unix_in_range, unix_to_internal in *; lia|unfold grace_sec; lia|unfold grace_sec; lia].
+    apply negb_false_iff, before_now in A. unfold grace_sec, grace_ns, sec_ns in *. lia.
+  - apply check_time_iff in E; [lia|assumption|assumption].
 Qed.
+
+(** Outside that range the stored seconds wrap; what then happens is fixed by
+    the model too.  An expiry at the top of the range reads as long past; an
+    issue time there reads as long ago (not as the future). *)
+Example check_time_wraps :
+  check_time (mkC [] [] [] (two63 - 1) 0 [] []) 1700000000000000000 = Some EExpired /\
+  check_time (mkC [] [] [] 1800000000 (two63 - 1) [] []) 1700000000000000000 = None /\
+  check_time (mkC [] [] [] (two63 - 1 - unix_to_internal) 0 [] []) 1700000000000000000 = None /\
+  check_time (mkC [] [] [] (two63 - unix_to_internal) 0 [] []) 1700000000000000000 = Some EExpired /\
+  check_time (mkC [] [] [] 1800000000 (- two63) [] []) 1700000000000000000 = None /\
+  check_time (mkC [] [] [] (- two63) (- two63) [] []) 0 = Some EExpired.
+Proof. vm_compute. repeat split. Qed.
 
 Lemma is_empty_spec b : is_empty b = true <-> b = [].
 Proof. destruct b; cbn; split; congruence. Qed.
@@ -409,13 +472,22 @@ Section JwtProofs.
   Qed.
 
   Lemma key_valid_iff (k : @pubkey M) now :
+    unix_in_range (pk_nvb k) -> unix_in_range (pk_nva k) ->
     key_valid k now = None <->
     (pk_nvb k <= 0 \/ pk_nvb k * sec_ns <= now) /\ now <= pk_nva k * sec_ns.
   Proof.
-    unfold key_valid.
-    destruct (Z.ltb_spec 0 (pk_nvb k)); destruct (Z.ltb_spec now (pk_nvb k * sec_ns)); cbn [andb];
-      try (split; [discriminate|lia]);
-      (destruct (Z.ltb_spec (pk_nva k * sec_ns) now); split; try discriminate; try lia; reflexivity).
+    intros Rb Ra. unfold key_valid.
+    rewrite (ext_of_unix_in_range _ Rb), (ext_of_unix_in_range _ Ra).
+    destruct (Z.ltb_spec 0 (pk_nvb k)) as [P|P]; cbn [andb].
+    - destruct (time_before (now_ext now) _ _ _) eqn:A.
+      + apply now_before in A. unfold sec_ns in *. split; [discriminate|lia].
+      + apply (bool_iff_false _ _ (now_before _ _)) in A.
+        destruct (time_before (pk_nva k + unix_to_internal) 0 _ _) eqn:B.
+        * apply before_now in B. unfold sec_ns in *. split; [discriminate|lia].
+        * apply (bool_iff_false _ _ (before_now _ _)) in B. unfold sec_ns in *. split; [lia|reflexivity].
+    - destruct (time_before (pk_nva k + unix_to_internal) 0 _ _) eqn:B.
+      + apply before_now in B. unfold sec_ns in *. split; [discriminate|lia].
+      + apply (bool_iff_false _ _ (before_now _ _)) in B. unfold sec_ns in *. split; [lia|reflexivity].
   Qed.
 
   (** An RS256 token is accepted only under a key of the card that is the
@@ -430,9 +502,9 @@ Section JwtProofs.
       h_alg (t_header t) = alg_rs256 /\
       card = pre ++ k :: post /\ Forall (fun k' => pk_id k' <> h_kid (t_header t)) pre /\
       pk_id k = h_kid (t_header t) /\ pk_type k = key_type_rsa /\
-      (pk_nvb k <= 0 \/ pk_nvb k * sec_ns <= now) /\ now <= pk_nva k * sec_ns /\
+      key_valid k now = None /\
       parse_key (pk_mat k) = Some rk /\ rsa_verify rk (t_payload t) (t_sig t) = true /\
-      c_iat (t_claims t) * sec_ns - grace_ns < now <= c_exp (t_claims t) * sec_ns.
+      check_time (t_claims t) now = None.
   Proof.
     unfold Jwt.rs_verify, decode_and_verify, rs_verifier.
     destruct (decode tok) as [t'|] eqn:D; [|discriminate].
@@ -444,7 +516,7 @@ Section JwtProofs.
     destruct (rsa_verify rk (t_payload t') (t_sig t')) eqn:R; [|discriminate].
     destruct (check_time (t_claims t') now) eqn:CT; [discriminate|].
     intros [= <-].
-    apply beq_bytes_spec in A, T. apply key_valid_iff in V. apply check_time_iff in CT.
+    apply beq_bytes_spec in A, T.
     apply find_key_first in F. destruct F as (I & pre & post & -> & Fp).
     exists k, rk, pre, post. tauto.
   Qed.
@@ -472,12 +544,13 @@ Section JwtProofs.
 
   Corollary rs256_expired_key_rejected card now tok t k :
     decode tok = JOk t -> find_key card (h_kid (t_header t)) = Some k ->
+    unix_in_range (pk_nvb k) -> unix_in_range (pk_nva k) ->
     pk_nva k * sec_ns < now -> is_err (rs_verify card now tok).
   Proof.
-    intros D F X. unfold Jwt.rs_verify, decode_and_verify, rs_verifier. rewrite D.
+    intros D F Rb Ra X. unfold Jwt.rs_verify, decode_and_verify, rs_verifier. rewrite D.
     destruct (negb (beq_bytes (h_alg (t_header t)) alg_rs256)); [exact I|]. rewrite F.
     destruct (negb (beq_bytes (pk_type k) key_type_rsa)); [exact I|].
-    destruct (key_valid k now) eqn:V; [exact I|]. apply key_valid_iff in V. lia.
+    destruct (key_valid k now) eqn:V; [exact I|]. apply key_valid_iff in V; [lia|assumption|assumption].
   Qed.
 
   (** A self token is accepted only for the issuer ".", the named user and host. *)
